@@ -242,9 +242,16 @@ def _is_exp_decay(repo, fi, du, e, at, depth=0):
     if e is None or depth > 5:
         return False
     e = view_source(e)
+    if isinstance(e, ast.Subscript):
+        return _is_exp_decay(repo, fi, du, e.value, at, depth + 1)
     if isinstance(e, ast.Call):
         if call_name(e) == "exp":
             return True
+        if call_name(e) in ("array", "asarray", "ascontiguousarray", "copy", "astype", "float32", "float64"):
+            # a copy / conversion holds the same values
+            inner = e.func.value if isinstance(e.func, ast.Attribute) and not (isinstance(e.func.value, ast.Name) and e.func.value.id in ("np", "gp", "numpy", "cupy")) \
+                else (e.args[0] if e.args else None)
+            return _is_exp_decay(repo, fi, du, inner, at, depth + 1)
         q = repo.resolve_call(fi, e)
         if q and repo.has_fn(q):
             f2 = repo.fn(q)
